@@ -43,6 +43,8 @@ import Reamber.Lemmas.PipelineOsuQua
 import Reamber.Lemmas.PipelineQuaOsu
 import Reamber.Lemmas.PipelineGeneric
 import Reamber.Lemmas.PipelineSMRead
+import Reamber.Lemmas.PipelineBMS
+import Reamber.Props.C04
 import Reamber.Props.C07
 import Reamber.Props.C03
 import Reamber.Props.C01
@@ -619,7 +621,9 @@ def srcOfAbstract (as : List AChart) (svs : Option (List (Rat × Rat))) (setAttr
     (lv : String) : Convert.Src :=
   ⟨setAttrs, as.map (fun a => embA a svs mapAttrs lv)⟩
 
-/-- **any source → osu** (`_partial`: covers StepMania → osu and BMS → osu, where the readers' whole-file theorems — C02
+/-- **any source → osu** (`_partial`: covers StepMania → osu — composed with the reader in `sm_to_osu_end_to_end_partial` —
+but NOT `BMSToOsu.convert`, whose model reads the `sample` column that `embA`'s frames do not have, so its conversion of
+`srcOfAbstract` fails and the statement is empty for it: BMS → osu is `bms_to_osu_objects_partial` over `embBMS`; where the readers' whole-file theorems — C02
 `reader_notes_eq_spec` / `sm_times`, C04 `read_eq_denote` — are stated over their own chart types and the statement "the
 in-memory set is the frames of the denotation's abstract charts `as`" is the hypothesis carried by `srcOfAbstract`):
 for every converter entry without a shift parameter, whenever the converter model succeeds on that set, the file written
@@ -1210,6 +1214,126 @@ example :
      | .error _ => false) = true ∧
     (match Convert.convert Convert.tables smToQua (srcOfAbstract [a] none sa ma "<d>") 0 with
      | .ok out => out.charts.map ofTChart == [a]
+     | .error _ => false) = true := by decide +kernel
+
+/-! ## BMS → osu / Quaver: file lines to written file, objects (reader C04 `read_eq_denote`, converter C08, writer C01 / C06) -/
+
+def bmsToOsu : Convert.Conv := Convert.conv! "BMSToOsu.convert"
+def bmsToQua : Convert.Conv := Convert.conv! "BMSToQua.convert"
+
+theorem bms_entries : bmsToOsu ∈ Generated.converters ∧ bmsToOsu.name = "BMSToOsu.convert" ∧ bmsToOsu.shiftParam = none ∧
+    bmsToQua ∈ Generated.converters ∧ bmsToQua.name = "BMSToQua.convert" ∧ bmsToQua.shiftParam = none := by
+  decide +kernel
+
+/-- **BMS reader = denotation on the abstract chart** (objects; from C04 `read_eq_denote`): whatever chart `read`
+returns holds, as multisets, exactly the hits and holds of the by-the-book denotation. -/
+theorem bms_read_abstract (lay : BMS.Layout) (hlay : BMS.LayoutOK lay) (lines : List BMS.Bytes) (d : BMS.Denotation)
+    (hden : BMS.denote lay lines = some d)
+    (hord : ∀ doc, BMS.parseDoc lines = .ok doc → BMS.LanesInOrder lay doc.notes)
+    (hgc : gridCompatible (grid defaultMaxDiv) d.tempo = true) (c : BMS.Chart)
+    (hr : BMS.read defaultGrid lay lines = .ok c) :
+    (ofBMSRead c).hits.Perm (ofBMS d).hits ∧ (ofBMSRead c).holds.Perm (ofBMS d).holds := by
+  obtain ⟨hits, holds, _, hh, hl, hall⟩ := BMS.read_eq_denote lay hlay lines d hden hord hgc
+  obtain ⟨e1, e2, _⟩ := hall c hr
+  constructor
+  · have := hh.map (fun h : BMS.DHit => (h.offset, (h.col : Int)))
+    rw [List.map_map] at this
+    simp only [ofBMSRead, ofBMS, e1]
+    exact this
+  · have := hl.map (fun h : BMS.DHold => (h.offset, (h.col : Int), h.length))
+    rw [List.map_map] at this
+    simp only [ofBMSRead, ofBMS, e2]
+    exact this
+
+theorem objectsClose_ms_of_perm (a a' tgt : AChart) (hh : a.hits.Perm a'.hits) (hl : a.holds.Perm a'.holds)
+    (h : CloseTo 0 .ms false 0 a tgt) : ObjectsClose 0 .ms false 0 a' tgt :=
+  ⟨paired_of_perm_left _ _ _ _ hh h.1, paired_of_perm_left _ _ _ _ hl h.2.1⟩
+
+/-- **BMS → osu, end to end, objects** (`_partial`; lines of the .bms to the written .osu text): for every injective
+layout (`LayoutOK`; the five generated layouts: C04 `layouts_ok`) and every text with a by-the-book meaning `d` whose lanes
+are in position order (¬D05) and whose tempo list is grid-compatible (¬D22), whenever the reader returns a chart `c`:
+1. `c` holds exactly `d`'s hits and holds (C04 `read_eq_denote`);
+2. whenever the converter model's `BMSToOsu.convert` succeeds on the set holding `c`'s rows, for every converted chart
+   whose osu chart is `OsuWritable` the written text has a by-the-book denotation `c'` with the hits and holds of the
+   SOURCE's denotation `d` within 1 ms (`ObjectsClose … (ofBMS d) (ofOsu c')`), and the whole in-memory chart — its
+   stored tempo list included — carried (`CloseTo … (ofBMSRead c) (ofOsu c')`, tempo timelines equal).
+`_partial` because the tempo timeline is compared with the reader's stored list, not with `d.tempo`: `read` re-seats the
+tempo changes (`tm.reseat()`, C11 `reseat_spec`: times and tempos kept, at most one inserted point per interval, which
+repeats the tempo in force), and that the *normalised* timelines of `c.bpms` and `d.tempo` coincide is not composed here.
+Glue by definition: `embBMS` (the in-memory `BMSMap` as its list frames: key columns + the `sample` column the
+converter reads, codec `dec` a parameter), `osuOfT`. -/
+theorem bms_to_osu_objects_partial (lay : BMS.Layout) (hlay : BMS.LayoutOK lay) (lines : List BMS.Bytes)
+    (d : BMS.Denotation) (hden : BMS.denote lay lines = some d)
+    (hord : ∀ doc, BMS.parseDoc lines = .ok doc → BMS.LanesInOrder lay doc.notes)
+    (hgc : gridCompatible (grid defaultMaxDiv) d.tempo = true) (c : BMS.Chart)
+    (hr : BMS.read defaultGrid lay lines = .ok c)
+    (dec : BMS.Bytes → String) (setAttrs mapAttrs : List (String × String)) (lv : String) (k : Int)
+    (out : Convert.Out)
+    (hconv : Convert.convert Convert.tables bmsToOsu ⟨setAttrs, [embBMS dec c mapAttrs lv]⟩ k = .ok out) :
+    ((ofBMSRead c).hits.Perm (ofBMS d).hits ∧ (ofBMSRead c).holds.Perm (ofBMS d).holds) ∧
+    ∀ p ∈ [embBMS dec c mapAttrs lv].zip out.pairs, ∀ (R : Osu.Render) (md : Osu.Meta) (osvs : List Osu.Sv),
+      OsuWritable R (osuOfT p.2.2 md osvs) →
+      ∃ c', Osu.denoteText (Osu.writeText R (osuOfT p.2.2 md osvs)) = .ok c' ∧
+        ObjectsClose 0 .ms false 0 (ofBMS d) (ofOsu c') ∧ CloseTo 0 .ms false 0 (ofBMSRead c) (ofOsu c') := by
+  have hra := bms_read_abstract lay hlay lines d hden hord hgc c hr
+  refine ⟨hra, ?_⟩
+  intro p hp R md osvs hw
+  obtain ⟨hc, _, hns, _, _, _⟩ := bms_entries
+  have hsrc : ∀ m ∈ (⟨setAttrs, [embBMS dec c mapAttrs lv]⟩ : Convert.Src).maps, Convert.srcMapOk m = true := by
+    intro m hm
+    simp only [List.mem_singleton] at hm
+    subst hm
+    exact srcMapOk_embBMS dec c mapAttrs lv
+  obtain ⟨c', hc', hclose⟩ := convert_write_osu _ hc hns _ k out hsrc hconv p hp R md osvs hw
+  have hp1 : p.1 = embBMS dec c mapAttrs lv := by
+    have := (List.of_mem_zip hp).1
+    simpa using this
+  rw [hp1, ofSrcMap_embBMS] at hclose
+  exact ⟨c', hc', objectsClose_ms_of_perm _ _ _ hra.1 hra.2 hclose, hclose⟩
+
+/-- **BMS → Quaver, end to end, objects** (`_partial` as `bms_to_osu_objects_partial`; writer C06: the stored tempo points
+on whole milliseconds, `MetaOk`, the writer model accepts) -/
+theorem bms_to_qua_objects_partial (lay : BMS.Layout) (hlay : BMS.LayoutOK lay) (lines : List BMS.Bytes)
+    (d : BMS.Denotation) (hden : BMS.denote lay lines = some d)
+    (hord : ∀ doc, BMS.parseDoc lines = .ok doc → BMS.LanesInOrder lay doc.notes)
+    (hgc : gridCompatible (grid defaultMaxDiv) d.tempo = true) (c : BMS.Chart)
+    (hr : BMS.read defaultGrid lay lines = .ok c)
+    (dec : BMS.Bytes → String) (setAttrs mapAttrs : List (String × String)) (lv : String) (k : Int)
+    (out : Convert.Out)
+    (hconv : Convert.convert Convert.tables bmsToQua ⟨setAttrs, [embBMS dec c mapAttrs lv]⟩ k = .ok out) :
+    ((ofBMSRead c).hits.Perm (ofBMS d).hits ∧ (ofBMSRead c).holds.Perm (ofBMS d).holds) ∧
+    ∀ p ∈ [embBMS dec c mapAttrs lv].zip out.pairs, ∀ (info : Qua.Rec) (qsvs : List Qua.Sv) (dq : Qua.Doc),
+      Qua.MetaOk info → TempoWholeMs (ofBMSRead c) → Qua.write (quaOfT p.2.2 info qsvs) = .ok dq →
+      ∃ c', Qua.Spec.denote dq = .ok c' ∧
+        ObjectsClose 0 .ms false 0 (ofBMS d) (ofQua c') ∧ CloseTo 0 .ms false 0 (ofBMSRead c) (ofQua c') := by
+  have hra := bms_read_abstract lay hlay lines d hden hord hgc c hr
+  refine ⟨hra, ?_⟩
+  intro p hp info qsvs dq hm hms hw
+  obtain ⟨_, _, _, hc, _, hns⟩ := bms_entries
+  have hsrc : ∀ m ∈ (⟨setAttrs, [embBMS dec c mapAttrs lv]⟩ : Convert.Src).maps, Convert.srcMapOk m = true := by
+    intro m hm
+    simp only [List.mem_singleton] at hm
+    subst hm
+    exact srcMapOk_embBMS dec c mapAttrs lv
+  have hp1 : p.1 = embBMS dec c mapAttrs lv := by
+    have := (List.of_mem_zip hp).1
+    simpa using this
+  obtain ⟨c', hc', hclose⟩ := convert_write_qua _ hc hns _ k out hsrc hconv p hp info qsvs dq
+    hm (by rw [hp1, ofSrcMap_embBMS]; exact hms) hw
+  rw [hp1, ofSrcMap_embBMS] at hclose
+  exact ⟨c', hc', objectsClose_ms_of_perm _ _ _ hra.1 hra.2 hclose, hclose⟩
+
+/-- non-vacuity of the converter hypotheses: on the frames of a read chart (two hits with samples, a hold, two stored
+tempo points) both converter models succeed and return one chart holding the chart's rows -/
+example :
+    let c : BMS.Chart := ⟨⟨[], [], [], [], [], [], 120, []⟩, [⟨0, ['0', '1'], 0⟩, ⟨3, [], 500⟩], [⟨1, ['0', '2'], 1000, 500⟩],
+      [⟨120, 4, 0⟩, ⟨150, 4, 2000⟩], []⟩
+    let ma : List (String × String) := [("title", "t"), ("artist", "a"), ("version", "v")]
+    (match Convert.convert Convert.tables bmsToOsu ⟨[], [embBMS (fun _ => "s.wav") c ma "<d>"]⟩ 0 with
+     | .ok out => out.charts.map ofTChart == [ofBMSRead c]
+     | .error _ => false) = true ∧
+    (match Convert.convert Convert.tables bmsToQua ⟨[], [embBMS (fun _ => "s.wav") c ma "<d>"]⟩ 0 with
+     | .ok out => out.charts.map ofTChart == [ofBMSRead c]
      | .error _ => false) = true := by decide +kernel
 
 end Reamber.Pipeline
